@@ -3435,8 +3435,10 @@ theorem TopR.init (N : Names) (Φ : FnDef → Option FDecl) (G : Nat) (h : List 
 embedding of the program from the empty state to its normal end, `Core.Fn.evalT` -- the semantics
 `Core.Fn.program_correct_fn` is stated against -- with some fuel ends too, from `G` null globals and any closure
 heap `h`, and the final configurations are related: `n'` globals are defined, cell `j` of the oracle and global `j`
-of Core.Fn hold related values (equal scalars, corresponding closures), every closure of the oracle's table
-corresponds to a closure object of Core.Fn with related captured values. -/
+of Core.Fn hold related values (equal scalars, corresponding closures, THE SAME array references), the oracle's heap and
+Core.Fn's container heap hold related arrays under equal ids (`Inv.heap`), every closure of the oracle's table
+corresponds to a closure object of Core.Fn with related captured values (a copy the oracle has poisoned -- assigned in
+an earlier activation -- is not constrained). -/
 theorem ref_program_fn_arr_partial {T : List FTop} {fuel : Nat} {v : Val} {env' : Env} {st' : St} (h : List (List Val))
     (hok : okTop N Φ G 0 T = true)
     (hrun : run (evalStmts fuel [[]] (toTops N T) .null) {} = (.ok (.normal, v, env'), st')) :
